@@ -14,7 +14,8 @@
    a witness below.  This file contains only statements closed by [exact]. *)
 From Coq Require Import String Ascii List Bool Arith ZArith.
 From Shoot Require Import Base.Str Base.GoVal Model.Transfer Model.CtorDirective Model.Ctor Model.CtorSpec Model.CtorGetSet.
-From Shoot Require Import Proofs.GoValProofs Proofs.CtorFlattenProofs Proofs.CtorC02Proofs Proofs.CtorGetSetProofs Proofs.CtorGetSetSemProofs.
+From Shoot Require Import Proofs.GoValProofs Proofs.CtorFlattenProofs Proofs.CtorC02Proofs Proofs.CtorGetSetProofs Proofs.CtorGetSetSemProofs
+                          Proofs.CtorGetSetIfaceProofs.
 Import ListNotations.
 Local Open Scope string_scope.
 
@@ -131,6 +132,23 @@ Theorem C03_own_accessors_in_method_set : forall pkg v fl fuel sd fields d nd ge
 Proof. exact own_accessors_selected. Qed.
 Print Assumptions C03_own_accessors_in_method_set.
 
+(* *T satisfies <T>Getter and <T>Setter: every method of the COMPLETE method set of the interface shoot
+   declares for T (explicit accessors and everything the embedded interfaces bring, transitively) is in the
+   method set of *T with the same signature -- in the package as it is once T's file is loaded.
+   Guards (decidable, besides c03_guard): no accessor of T's embedding closure is hidden on *T by a field /
+   embedded field or another accessor of the same name (finding K_getset_field_hides_accessor, refuted
+   below); the embedding is acyclic; the admitted interfaces do not lead back to T's own interface. *)
+Theorem C03_pointer_receiver_satisfies : forall pkg v fl fuel sd fields d nd getter,
+  getset_of pkg v fl fuel sd = COk (fields, d, nd) ->
+  c03_guard pkg fl fuel sd = true -> sd_pkg sd = "" ->
+  let v' := view_put v (ventry_of sd nd d) in
+  accessors_visible pkg v' fuel sd = true ->
+  not_self_embedded pkg fuel sd = true -> ifaces_avoid v fuel sd d = true ->
+  implements pkg v' (S fuel) (self_inst sd)
+             (iface_methods v' (S fuel) getter (sd_name sd) (map TParam (ve_tparams (ventry_of sd nd d)))) = true.
+Proof. exact pointer_receiver_satisfies. Qed.
+Print Assumptions C03_pointer_receiver_satisfies.
+
 (* ------------------------------------------------------------------ examples *)
 Definition fd1 (n : ident) (t : ty) (doc : string) : fdecl := {| fd_names := [n]; fd_ty := t; fd_doc := doc; fd_tag := None |}.
 Definition emb (t : ty) : fdecl := {| fd_names := []; fd_ty := t; fd_doc := ""; fd_tag := None |}.
@@ -204,6 +222,21 @@ Example C03_example_set_get :
   end.
 Proof. vm_compute. repeat split; reflexivity. Qed.
 
+(* the guards of C03_pointer_receiver_satisfies hold for Son analysed after Base (pointer embed, promoted accessors) *)
+Example C03_example_satisfies_guards :
+  match run_getset ex_pkg gs_flags 8 ["Base"; "RO"] [] with
+  | COk (_, v) =>
+      match getset_of ex_pkg v gs_flags 8 ex_son with
+      | COk (_, d, nd) =>
+          accessors_visible ex_pkg (view_put v (ventry_of ex_son nd d)) 8 ex_son = true /\
+          not_self_embedded ex_pkg 8 ex_son = true /\ ifaces_avoid v 8 ex_son d = true /\
+          gs_get_ifaces d = [("Base", [])]
+      | _ => False
+      end
+  | _ => False
+  end.
+Proof. vm_compute. repeat split; reflexivity. Qed.
+
 (* an exported field with a directive *)
 Example C03_example_fatal :
   directive_on_exported {| sd_pkg := ""; sd_name := "E"; sd_tparams := []; sd_doc := "";
@@ -252,3 +285,35 @@ Proof.
   vm_compute in E. inversion E; subst. vm_compute. repeat split; reflexivity.
 Qed.
 Print Assumptions C03_refuted_K_getset_excluded_field.
+
+(* K_getset_field_hides_accessor: Base{base int}, Son{Base; k int} -- inside c03_guard; SonGetter embeds
+   BaseGetter whose method Base() is hidden on *Son by the embedded field Base: *Son does not satisfy SonGetter *)
+Definition w_hbase : sdecl :=
+  {| sd_pkg := ""; sd_name := "Base"; sd_tparams := []; sd_doc := ""; sd_fields := [fd1 "base" (TBasic "int") ""] |}.
+Definition w_hson : sdecl :=
+  {| sd_pkg := ""; sd_name := "Son"; sd_tparams := []; sd_doc := "";
+     sd_fields := [emb (TNamed "" "Base" []); fd1 "k" (TBasic "int") ""] |}.
+
+Definition w_h_pkg : pkg_spec := [w_hbase; w_hson].
+Definition w_h_view : view :=
+  Eval vm_compute in match run_getset w_h_pkg gs_flags 8 ["Base"] [] with COk (_, v) => v | _ => [] end.
+
+Theorem C03_refuted_K_getset_field_hides_accessor :
+  exists pkg v sd fields d nd,
+    (exists out, run_getset pkg gs_flags 8 ["Base"] [] = COk (out, v)) /\
+    getset_of pkg v gs_flags 8 sd = COk (fields, d, nd) /\
+    c03_guard pkg gs_flags 8 sd = true /\ sd_pkg sd = "" /\
+    not_self_embedded pkg 8 sd = true /\ ifaces_avoid v 8 sd d = true /\
+    gs_get_ifaces d = [("Base", [])] /\
+    accessors_visible pkg (view_put v (ventry_of sd nd d)) 8 sd = false /\
+    implements pkg (view_put v (ventry_of sd nd d)) 9 (self_inst sd)
+               (iface_methods (view_put v (ventry_of sd nd d)) 9 true (sd_name sd) []) = false.
+Proof.
+  exists w_h_pkg, w_h_view, w_hson.
+  destruct (getset_of w_h_pkg w_h_view gs_flags 8 w_hson) as [[[fields d] nd]| |] eqn:E; try (vm_compute in E; discriminate).
+  exists fields, d, nd. split.
+  - destruct (run_getset w_h_pkg gs_flags 8 ["Base"] []) as [[out v]| |] eqn:E1; try (vm_compute in E1; discriminate).
+    exists out. vm_compute in E1. inversion E1; subst. reflexivity.
+  - split; [reflexivity|]. vm_compute in E. inversion E; subst. vm_compute. repeat split; reflexivity.
+Qed.
+Print Assumptions C03_refuted_K_getset_field_hides_accessor.
